@@ -3,7 +3,7 @@ removed afterwards) and refresh detected_by in its meta.json.  usage: recheck_se
 import json, os, subprocess, sys, tempfile, shutil
 from concurrent.futures import ThreadPoolExecutor
 flt = sys.argv[1] if len(sys.argv) > 1 else ""
-seeds = sorted(d for d in os.listdir("/verif/seeded") if flt in d and os.path.isdir("/verif/seeded/" + d))
+seeds = sorted(d for d in os.listdir("/verif/seeded") if flt in d and not d.startswith("benign-") and os.path.isdir("/verif/seeded/" + d))
 checks = json.load(open("/verif/MANIFEST.json"))["checks"]
 def one(d):
     wt = tempfile.mkdtemp(prefix="reseed-"); os.rmdir(wt)
